@@ -165,10 +165,13 @@ def run_circuit(case):
     s0 = sp.Rational(case.get('s0', '2'))
     sub = {'s': s0}
     rng = random.Random(case.get('seed', 1))
+    from lcapy import state as _state
+    _state.current_sign_convention = case.get('convention', 'passive')
     c = Circuit()
     for line in case['netlist']:
         c.add(line)
     mode = case.get('mode', 'direct')
+    out_conv = case.get('convention', 'passive')
     if mode == 'laplace':
         cc = c.laplace()
     elif mode == 'dc':
@@ -179,7 +182,7 @@ def run_circuit(case):
         cc = c
     if cc is None:
         return {'error': 'NoNetlist: conversion returned None'}
-    out = {'mode': mode}
+    out = {'mode': mode, 'convention': out_conv}
     want = case.get('want', ['nodal', 'mesh'])
     nidx = node_index_map(cc)
     out['node_index'] = nidx
@@ -533,7 +536,13 @@ def run_ss(c, case, s0):
     for xn in out['x']:
         try:
             nm = xn[2:-3]
-            xref.append(at(c[nm].I(lcapy.s) if xn.startswith('i_') else c[nm].V(lcapy.s), {'s': s0}))
+            if xn.startswith('i_'):
+                from lcapy import state as _state
+                sg = -1 if _state.current_sign_convention == 'active' else 1     # the active convention reports -i for branch elements
+                v_ = at(c[nm].I(lcapy.s), {'s': s0})
+                xref.append(rs(sg * sp.Rational(v_)) if v_ is not None else None)
+            else:
+                xref.append(at(c[nm].V(lcapy.s), {'s': s0}))
         except Exception:
             xref.append(None)
     out['xref'] = xref
@@ -611,16 +620,28 @@ def run_ss(c, case, s0):
                 lines.append(d['ss'].split(';')[0])
                 newname[d['name']] = toks[0]
         try:
+            from lcapy import state as _state
+            conv_ = _state.current_sign_convention
+            # the state derivatives are physical quantities: current through the capacitor from its first to its
+            # second node (passive convention), whichever convention is selected for reporting
+            _state.current_sign_convention = 'passive'
+            try:
+                n = Circuit()
+                for l in lines:
+                    n.add(l)
+                dotx = []
+                for nm in states:
+                    e = c.elements[nm]
+                    if e.is_inductor:
+                        dotx.append(rs(sp.sympify(n[newname[nm]].V.dc.sympy) / sp.sympify(e.cpt.L.sympy)))
+                    else:
+                        dotx.append(rs(sp.sympify(n[newname[nm]].I.dc.sympy) / sp.sympify(e.cpt.C.sympy)))
+            finally:
+                _state.current_sign_convention = conv_
             n = Circuit()
             for l in lines:
                 n.add(l)
-            dotx = []
-            for nm in states:
-                e = c.elements[nm]
-                if e.is_inductor:
-                    dotx.append(rs(sp.sympify(n[newname[nm]].V.dc.sympy) / sp.sympify(e.cpt.L.sympy)))
-                else:
-                    dotx.append(rs(sp.sympify(n[newname[nm]].I.dc.sympy) / sp.sympify(e.cpt.C.sympy)))
+            dotx_unused = []
             ys = []
             for yn in out['y']:
                 if yn.startswith('v_'):
